@@ -5,6 +5,8 @@ import (
 	"fmt"
 	"os"
 	"path/filepath"
+	"sort"
+	"strconv"
 	"testing"
 
 	"pgregory.net/rapid"
@@ -20,6 +22,7 @@ var (
 	flagScale     = flag.Float64("verif.scale", 1, "multiplier for enumerative budgets")
 	flagSeed      = flag.Uint64("verif.seed", 1, "seed for the non-rapid enumerations")
 	flagKFOut     = flag.String("verif.kfout", "", "known-finding probe results (JSON)")
+	flagRegress   = flag.String("verif.regressdir", "", "directory of saved failing traces that are replayed first")
 )
 
 func TestMain(m *testing.M) {
@@ -74,6 +77,9 @@ func replayTrace(tr *Trace) error {
 		kinds = append(kinds, k)
 	}
 	eng := NewEngine(&cfg, kinds)
+	if ph, err := strconv.Atoi(tr.Params["audit_phase"]); err == nil {
+		eng.AuditPhase = ph
+	}
 	for _, op := range tr.Ops {
 		if err := eng.Apply(op); err != nil {
 			if err == ErrAbort {
@@ -154,6 +160,38 @@ func TestReplay(t *testing.T) {
 // customReplays holds replay functions of the non-history checks.
 var customReplays = map[string]func(*Trace) error{}
 
+// replayRegressions replays every saved trace of the property (the minimal
+// reproductions of earlier findings) before anything is generated.
+func replayRegressions(t *testing.T, id string) {
+	if *flagRegress == "" || *flagShard != 0 {
+		return
+	}
+	files, _ := filepath.Glob(filepath.Join(*flagRegress, "*.json"))
+	sort.Strings(files)
+	n := 0
+	for _, f := range files {
+		tr, err := LoadTrace(f)
+		if err != nil || tr.Property != id {
+			continue
+		}
+		var rerr error
+		if fn, ok := customReplays[id]; ok {
+			rerr = fn(tr)
+		} else {
+			rerr = replayTrace(tr)
+		}
+		n++
+		if rerr != nil {
+			tr.Failure = "saved regression trace fails again: " + rerr.Error()
+			failures.addOther(tr)
+			t.Fatalf("%s: %s (%s)", id, tr.Failure, f)
+		}
+	}
+	stats.mu.Lock()
+	stats.Extra["regression_traces_replayed"] = n
+	stats.mu.Unlock()
+}
+
 func runSpec(t *testing.T, id string) {
 	spec := specByID(id)
 	if spec == nil {
@@ -161,5 +199,6 @@ func runSpec(t *testing.T, id string) {
 	}
 	stats.Property = id
 	stats.Rule = spec.Rule
+	replayRegressions(t, id)
 	rapid.Check(t, func(rt *rapid.T) { RunHistory(rt, spec) })
 }
